@@ -49,7 +49,7 @@ def demo(path, checkout):
 
 def run_check(pid, src, tier):
     t0 = time.time()
-    env = dict(os.environ, VALIDA_SRC=src)
+    env = dict(os.environ, VALIDA_SRC=src, VF_OUT_DIR=os.path.join(src, "vf-out"))  # (evidence/ and replays/ of scratch runs stay in the scratch copy)
     rc, out = sh([os.path.join(ROOT, "check"), pid, "--tier", tier], cwd=ROOT, env=env)
     keys = [l.split("key=")[1].split()[0] for l in out.splitlines() if l.startswith("VIOLATION") and "key=" in l]
     return {"exit": rc, "keys": keys[:5], "s": round(time.time() - t0, 1)}
